@@ -11,6 +11,7 @@ The model is tied to the code by `harness/c01` (and c19, c04) on every run.
 -/
 import Verif.Lemmas.Chain
 import Verif.Lemmas.ChainF
+import Verif.Lemmas.Ancestor
 
 namespace Verif.C01
 open Verif.Chain
@@ -255,5 +256,39 @@ example :
     let s1 := runF Uside MgrF.init [.add [1, 2], .add [3]]
     let s2 := (maybeReorgF Uside (addV2LoopSkip Uside [3, 4] s1).1 4).1
     s2.m.best = [4, 3, 1, 0] ∧ s2.full 3 = false := by decide
+
+
+/-! ### the block whose timestamp the pre-Oak retarget reads (`DBStore.AncestorTimestamp`) -/
+
+/-- **`AncestorTimestamp` is the parent walk**: in every reachable state of the manager, for every
+block with a stored state — on the best chain, on a side chain that leaves it anywhere, or on a
+chain that shares only genesis with it — the record the store reads is that of the block
+`min(depth, height)` parent links above, i.e. exactly what a node that had this block's chain as
+its only chain would read.  The work credited to side-chain headers (and hence the decision to
+reorg) therefore does not depend on which chain is currently best. -/
+theorem ancestor_timestamp_block {U} (hU : WFU U) (hist : List (List Nat)) (depth id : Nat)
+    (hs : (run U Mgr.init hist).states id = true) :
+    ancestorOf U (run U Mgr.init hist) depth id = anc U (min depth (U id).height) id :=
+  ancestorOf_spec (inv_reachable hU hist) hs depth
+
+/-- non-vacuity on the fork universe: block 5 (height 4, on the rejected fork 1-3-4-5) with depth 2
+reads block 3, which is not on the best chain 0-1-2-6; block 6 with depth 2 takes the shortcut -/
+example : (run Uex Mgr.init [[1, 2], [3, 4, 5], [6]]).best = [6, 2, 1, 0] ∧
+    (run Uex Mgr.init [[1, 2], [3, 4, 5], [6]]).states 5 = true ∧
+    ancestorOf Uex (run Uex Mgr.init [[1, 2], [3, 4, 5], [6]]) 2 5 = 3 ∧
+    ancestorOf Uex (run Uex Mgr.init [[1, 2], [3, 4, 5], [6]]) 2 6 = 1 ∧
+    ancestorOf Uex (run Uex Mgr.init [[1, 2], [3, 4, 5], [6]]) 1000 5 = 0 := by decide
+
+/-- a seeded faulty variant ("keep the timestamp decoded while walking": the record of the LAST
+block visited on the walk, one link short) is not the parent walk -/
+def ancLoopShort (U : Nat → Blk) (m : Mgr) (depth height : Nat) : Nat → Nat → Nat → Nat → Nat
+  | 0, _, _, last => last
+  | fuel + 1, i, a, _ =>
+    if m.bestAt (height - i) = some a then
+      ((if height < depth then m.bestAt 0 else m.bestAt (height - depth)).getD 0)
+    else ancLoopShort U m depth height fuel (i + 1) (U a).parent a
+
+example : ancLoopShort Uex (run Uex Mgr.init [[1, 2], [3, 4, 5], [6]]) 2 4 2 0 5 5 = 4 ∧
+    anc Uex 2 5 = 3 := by decide
 
 end Verif.C01
